@@ -112,26 +112,28 @@ func (r *run) runMemLimit() {
 		res := result{}
 		broken := false
 		for i, e := range stream {
-			if broken {
-				// A refusal in the middle of an IPC message leaves that
-				// sub-stream's reader and dictionaries out of step with the
-				// producer; a receiver ends the stream on the error. What a
-				// later batch would meet is Arrow-internal indexing, outside
-				// what the property states, so the replay stops here.
-				break
-			}
 			r.batch = i
 			got, _, err, pan := decode(c, signal, cloneBar(e.bar))
 			if r.o.Render {
 				r.logf("limit %d: batch %d -> err=%v panic=%v items=%d inuse=%d", L, i, err, pan != "", len(got), mp.inuse)
 			}
 			if pan != "" {
-				r.violate("C14", "no-panic", fmt.Sprintf("memory limit %d bytes, batch %d: consumer panicked: %s", L, i, pan))
+				after := ""
+				if broken {
+					after = " (a batch delivered after an earlier one had been refused)"
+				}
+				r.violate("C14", "no-panic", fmt.Sprintf("memory limit %d bytes, batch %d%s: consumer panicked: %s", L, i, after, pan))
 				return res
 			}
 			if mp.inuse > int64(L) || mp.max > int64(L) {
 				r.violate("C14", "inuse-bounded", fmt.Sprintf("memory limit %d bytes, after batch %d the consumer reports %d bytes of Arrow memory in use (peak %d)", L, i, mp.inuse, mp.max))
 				return res
+			}
+			if broken {
+				// after a refusal the stream is broken: later batches may be
+				// rejected with any error (or decode, if they start new IPC
+				// streams); only no-panic and the in-use bound are checked
+				continue
 			}
 			if err != nil {
 				if !errors.Is(err, arrow_record.ErrConsumerMemoryLimit) {
